@@ -12,6 +12,12 @@
 //   * pack(y) has the same length as pack(x), and unpack(pack(y)) dumps like y
 #include "common/sdump.hpp"
 #include "common/gdeck.hpp"
+#include "common/gkw.hpp"
+#include <opm/input/eclipse/EclipseState/Tables/TableManager.hpp>
+#include <opm/input/eclipse/EclipseState/Tables/TableContainer.hpp>
+#include <opm/input/eclipse/EclipseState/Tables/SimpleTable.hpp>
+#include <opm/input/eclipse/EclipseState/Tables/RocktabTable.hpp>
+#include <opm/input/eclipse/EclipseState/Tables/PlyshlogTable.hpp>
 #include <opm/input/eclipse/Parser/Parser.hpp>
 #include <opm/input/eclipse/Parser/ParseContext.hpp>
 #include <opm/input/eclipse/Parser/ErrorGuard.hpp>
@@ -276,6 +282,102 @@ static void dynamicStates(vh::Reporter& rep, Rng& rng) {
     roundTrip(rep, "RestartValue", rv, [&](const RestartValue& r) { std::ostringstream o; o << r.solution.size() << " " << r.wells.size() << " " << r.extra.size(); for (const auto& kv : r.wells) o << kv.first << hexd(kv.second.bhp) << hexd(kv.second.rates.get(data::Rates::opt::oil, 0.0)) << kv.second.connections.size(); for (auto& e : r.extra) o << e.first.key << e.second.size(); return o.str(); }, "random RestartValue");
 }
 
+// ------------------------------------------------------------------------------------------------------
+// mode=tables: TableManager objects with many table families and several regions per family
+// ------------------------------------------------------------------------------------------------------
+struct TableFamily { std::string kw, dimsKw, dimsItem; int ncols; int shift; std::vector<int> pattern; bool usable = false; };
+
+static std::string tableText(const TableFamily& f, int ntables, int rows, Rng* rng) {
+    // column 0 strictly increasing; the others follow the family's accepted pattern (+1 increasing, -1 decreasing, 0 constant)
+    std::ostringstream s;
+    s << f.kw << "\n";
+    for (int t = 0; t < ntables; ++t) {
+        for (int r = 0; r < rows; ++r) {
+            double x = (r + 1.0) / (rows + 1.0);
+            for (int c = 0; c < f.ncols; ++c) {
+                int p = c == 0 ? +1 : f.pattern[c - 1];
+                double base = p > 0 ? x : (p < 0 ? 1.0 - x : 0.5);
+                double v = base * (c == 0 ? 1.0 : 0.9) + (rng && c > 0 && p != 0 ? 0.0 : 0.0);
+                if (rng && t > 0) v = v * (1.0 - 0.01 * t);      // tables of different regions differ
+                if (r == 0 && c > 0 && p > 0) v = 0.0;            // curves start at zero where they increase
+                s << " " << gdeck::fmtd(v);
+            }
+            s << "\n";
+        }
+        s << "/\n";
+    }
+    return s.str();
+}
+
+static std::string dimsPrelude(int nts, int ntp, int neq, int nte, int ntm, int ntr, int nia) {
+    std::ostringstream s;
+    s << "RUNSPEC\nDIMENS\n 2 2 2 /\nOIL\nGAS\nWATER\nTABDIMS\n " << nts << " " << ntp << " 20 20 /\nEQLDIMS\n " << neq << " /\n";
+    s << "ENDSCALE\n 2* " << nte << " /\nMISCIBLE\n " << ntm << " /\nROCKCOMP\n 'REVERS' " << ntr << " /\nAQUDIMS\n 4* " << nia + 1 << " 10 /\nPROPS\n";
+    return s.str();
+}
+
+static int dimOf(const TableFamily& f, int nts, int ntp, int neq, int nte, int ntm, int ntr, int nia) {
+    if (f.dimsKw == "TABDIMS") return f.dimsItem == "NTSFUN" ? nts : (f.dimsItem == "NTPVT" ? ntp : 0);
+    if (f.dimsKw == "EQLDIMS") return f.dimsItem == "NTEQUL" ? neq : 0;
+    if (f.dimsKw == "ENDSCALE") return nte;
+    if (f.dimsKw == "MISCIBLE") return ntm;
+    if (f.dimsKw == "ROCKCOMP") return ntr;
+    if (f.dimsKw == "AQUDIMS") return nia;
+    return 0;
+}
+
+// Which simple-table keywords of the tree under test can be given acceptable data: for every keyword whose single record
+// is one ALL-size floating point item sized by one of the dims keywords above, the column patterns are tried in a fixed order
+// against TableManager(deck) and the first accepted one is kept (deterministic function of the tree).
+static std::vector<TableFamily> discoverFamilies(Parser& parser, vh::Reporter& rep) {
+    std::vector<TableFamily> fams;
+    gkw::Catalog cat(parser);
+    for (const auto& name : cat.names) {
+        const auto& kw = parser.getParserKeywordFromDeckName(name);
+        if (kw.getSizeType() != OTHER_KEYWORD_IN_DECK || std::distance(kw.begin(), kw.end()) != 1) continue;
+        const auto& rec = kw.getRecord(0);
+        if (rec.size() != 1) continue;
+        const auto& it = rec.get(0);
+        if (it.sizeType() != ParserItem::item_size::ALL || it.dataType() != type_tag::fdouble) continue;
+        TableFamily f; f.kw = name; f.dimsKw = kw.getKeywordSize().keyword(); f.dimsItem = kw.getKeywordSize().item(); f.shift = kw.getKeywordSize().size_shift();
+        f.ncols = (int)it.dimensions().size();
+        if (f.ncols < 2 || f.ncols > 9) continue;
+        if (dimOf(f, 1, 1, 1, 1, 1, 1, 1) == 0) continue;
+        // enumerate patterns in a fixed order: all increasing, all decreasing, then mixed (base 3 counter)
+        int npat = 1; for (int c = 1; c < f.ncols; ++c) npat *= 3;
+        for (int code = 0; code < npat && code < 243 && !f.usable; ++code) {
+            f.pattern.clear();
+            int q = code;
+            for (int c = 1; c < f.ncols; ++c) { static const int v[3] = {+1, -1, 0}; f.pattern.push_back(v[q % 3]); q /= 3; }
+            std::string deck = dimsPrelude(1, 1, 1, 1, 1, 1, 1) + tableText(f, 1, 3, nullptr);
+            try { ErrorGuard eg; ParseContext pc; Deck d = parser.parseString(deck, pc, eg); TableManager tm(d); if (tm.hasTables(f.kw) && tm.getTables(f.kw).size() == 1) f.usable = true; }
+            catch (const std::exception&) {}
+        }
+        if (f.usable) fams.push_back(f);
+        else rep.cover("table_family_not_generatable", name);
+    }
+    return fams;
+}
+
+static std::string queryTables(const TableManager& tm, const std::vector<TableFamily>& fams) {
+    std::ostringstream o;
+    for (const auto& f : fams) {
+        if (!tm.hasTables(f.kw)) continue;
+        const auto& tc = tm.getTables(f.kw);
+        o << f.kw << " max=" << tc.max() << " size=" << tc.size() << ":";
+        for (size_t t = 0; t < tc.max(); ++t) {
+            try { const auto& tb = tc.getTable(t); for (size_t c = 0; c < tb.numColumns(); ++c) { const auto& col = tb.getColumn(c); o << col.name() << "["; for (size_t r = 0; r < col.size(); ++r) o << hexd(col[r]) << (col.defaultApplied(r) ? "d" : "") << ","; o << "]"; } o << ";"; }
+            catch (const std::exception& e) { o << "throws;"; }
+        }
+        o << "\n";
+    }
+    if (tm.hasTables("ROCKTAB")) { const auto& tc = tm.getRocktabTables(); o << "ROCKTAB max=" << tc.max() << " size=" << tc.size(); for (size_t t = 0; t < tc.size(); ++t) { const auto& rt = tc.getTable<RocktabTable>(t); o << " n=" << rt.numRows() << " p0=" << hexd(rt.getPressureColumn()[0]) << " pv0=" << hexd(rt.getPoreVolumeMultiplierColumn()[0]) << " tr0=" << hexd(rt.getTransmissibilityMultiplierColumn()[0]); } o << "\n"; }
+    if (tm.hasTables("PLYSHLOG")) { const auto& tc = tm.getPlyshlogTables(); o << "PLYSHLOG max=" << tc.max() << " size=" << tc.size(); for (size_t t = 0; t < tc.max(); ++t) { try { const auto& pt = tc.getTable<PlyshlogTable>(t); o << " ref=" << hexd(pt.getRefPolymerConcentration()) << " n=" << pt.numRows() << " hasSal=" << pt.hasRefSalinity() << " hasT=" << pt.hasRefTemperature(); } catch (const std::exception&) { o << " throws"; } } o << "\n"; }
+    o << "pvtw=" << tm.getPvtwTable().size() << " density=" << tm.getDensityTable().size() << " rock=" << tm.getRockTable().size() << " pvto=" << tm.getPvtoTables().size() << " pvtg=" << tm.getPvtgTables().size()
+      << " tabdims=" << tm.getTabdims().getNumSatTables() << "," << tm.getTabdims().getNumPVTTables() << " eqldims=" << tm.getEqldims().getNumEquilRegions() << " rtemp=" << hexd(tm.rtemp()) << "\n";
+    return o.str();
+}
+
 static std::vector<std::string> shippedDecks(const std::string& repo) {
     std::vector<std::string> v;
     for (auto& e : fs::directory_iterator(repo + "/tests")) if (e.is_regular_file() && e.path().extension() == ".DATA") v.push_back(e.path().string());
@@ -291,7 +393,45 @@ int main(int argc, char** argv) {
     const std::string mode = args.get("mode", "gen");
     const std::string repo = getenv("VERIF_REPO") ? getenv("VERIF_REPO") : "/repo";
     auto decks = mode == "shipped" ? shippedDecks(repo) : std::vector<std::string>{};
+    std::vector<TableFamily> fams;
+    if (mode == "tables") {
+        fams = discoverFamilies(parser, rep);
+        rep.count("table_families_generatable", args.shard == 0 ? (long)fams.size() : 0);
+        if (fams.empty()) { fprintf(stderr, "no table family could be generated\n"); return 2; }
+    }
     rep.run_cases([&](long idx, Rng& rng) {
+        if (mode == "tables") {
+            int nts = 1 + (int)rng.below(3), ntp = 1 + (int)rng.below(3), neq = 1 + (int)rng.below(3), nte = 1 + (int)rng.below(2), ntm = 1 + (int)rng.below(2), ntr = 1 + (int)rng.below(3), nia = 1 + (int)rng.below(2);
+            std::string deck = dimsPrelude(nts, ntp, neq, nte, ntm, ntr, nia);
+            int nf = 3 + (int)rng.below(10);
+            std::set<std::string> used;
+            for (int q = 0; q < nf; ++q) {
+                const auto& f = fams[rng.below(fams.size())];
+                if (!used.insert(f.kw).second) continue;
+                int n = dimOf(f, nts, ntp, neq, nte, ntm, ntr, nia);
+                deck += tableText(f, n, 2 + (int)rng.below(4), &rng);
+                rep.cover("table_family", f.kw);
+            }
+            // the two containers TableManager::serializeOp treats specially
+            if (rng.chance(0.5) && !used.count("ROCKTAB")) { deck += "ROCKTAB\n"; for (int t = 0; t < ntr; ++t) deck += " 100 0.98 0.97\n 200 1.0 1.0\n " + gdeck::fmtd(300 + 10 * t) + " 1.02 1.03 /\n"; rep.cover("table_family", "ROCKTAB(hand)"); }
+            if (rng.chance(0.5)) { deck += "PLYSHLOG\n " + gdeck::fmtd(1 + rng.below(3)) + " /\n 1e-7 1.0\n 1.0 1.2\n 1000 2.4 /\n"; rep.cover("table_family", "PLYSHLOG(first region only)"); }
+            if (rng.chance(0.5)) { deck += "PVTW\n"; for (int t = 0; t < ntp; ++t) deck += " 277 1.03 4e-5 0.3 0 /\n"; deck += "DENSITY\n"; for (int t = 0; t < ntp; ++t) deck += " 860 1033 0.85 /\n"; }
+            bool built = false;
+            try {
+                ErrorGuard eg; ParseContext pc;
+                Deck d = parser.parseString(deck, pc, eg);
+                TableManager tm(d);
+                built = true;
+                rep.count("region_counts_above_one", (nts > 1) + (ntp > 1) + (neq > 1) + (ntr > 1));
+                roundTrip(rep, "TableManager", tm, [&](const TableManager& t) { return queryTables(t, fams); }, deck);
+            } catch (const std::exception& e) {
+                if (!built) { rep.count("base_refused"); if (args.replaying) fprintf(stderr, "REFUSED %s\n%s\n", e.what(), deck.c_str()); }
+                else rep.violation("exception-during-roundtrip:" + g_phase, std::string("exception during ") + g_phase + ": " + e.what(), deck);
+            }
+            rep.case_done(vh::fnv(deck), built);
+            if (idx < 1) rep.sample(deck.substr(0, 1500));
+            return;
+        }
         if (mode == "dyn") { dynamicStates(rep, rng); rep.case_done(rng.u64(), true); if (idx < 1) rep.sample("random SummaryState / UDQState / WellTestState / RestartValue filled through update_*(), add_define/add_assign, close_well/close_completion, addExtra"); return; }
         bool built = false;
         std::string witness;
